@@ -89,6 +89,14 @@ Theorem C43_kb_meaning :
 Proof. exact (conj c_kb_standard c_kb_direct). Qed.
 Print Assumptions C43_kb_meaning.
 
+(* tail of the actuation stage (mj_fwdActuation / forward.fwd_actuation): gravity compensation is added to the joint-space actuator force BEFORE the clamp
+   to actuatorfrcrange, so qfrc_actuator of a limited joint never leaves the range; clamping first and adding afterwards does leave it *)
+Theorem C43_act_tail :
+  (forall (frc gc : R) (g : bool) (lo hi : R), lo <= hi -> lo <= act_tail frc gc g true lo hi <= hi) /\
+  (exists (frc gc lo hi : R), lo <= hi /\ hi < act_tail_swapped frc gc true true lo hi).
+Proof. exact (conj act_tail_in_range act_tail_swapped_leaves_range). Qed.
+Print Assumptions C43_act_tail.
+
 (* non-vacuity: the hypotheses hold for ordinary values and the three zones are all reached *)
 Example C43_example :
   (0 < 1 /\ Rdec 1 (-15) <= 1 * 1 * (1 + 1 * 1)) /\
